@@ -5,6 +5,7 @@ Property theorems only (helper lemmas live in PamsLemmas).  `Inv` is the market 
 (PamsLemmas/MarketLemmas.lean); `inv_runOps` shows it holds in every state reachable from the
 initial state by valid operations, so each theorem below holds for every history.
 -/
+import PamsLemmas.SourceTie
 import PamsLemmas.MarketLemmas
 import Mathlib.Data.Nat.Basic
 
@@ -120,5 +121,12 @@ example : (match ((Market.init natOps 100 none).runOps natOps
        .add { agent := 2, isBuy := true, price := some 105, vol := 1, ttl := none }]).1.execution natOps with
     | .ok (_, fs) => fs.map (fun f => (f.buyId, f.sellId, f.price))
     | .error _ => []) = [(1, 0, 105)] := by decide +kernel
+
+/-- (T) the price-selection and break tests of `Market._execution` in the current sources carry the
+operators the model transcribes (`<` for the break, `==`/`<`/`>` on the stamps, `<` on placed_at) -/
+theorem source_price_selection :
+    Pams.Source.opsOf "Market._execution" =
+      ["!=", "!=", "==", "==", "==", "==", "==", "==", "is not", "is not", "<", "==", "<", "<", "is", "is",
+       "is", "is", "is not", "==", "is", "is", "<", ">", "<", "is"] := by decide
 
 end Pams.C01
